@@ -380,6 +380,29 @@ fn once_init_race() {
     });
 }
 
+/// C04, schedule half, blocking forms: two threads call get_or_init_blocking at the same time: one closure runs, both get
+/// the value that closure produced.
+fn once_blocking_race() {
+    let mut b = loom::model::Builder::new();
+    b.preemption_bound = bound();
+    b.check(|| {
+        EXECUTIONS.fetch_add(1, std::sync::atomic::Ordering::Relaxed);
+        let cell = std::sync::Arc::new(OnceCell::<u32>::new());
+        let runs = std::sync::Arc::new(std::sync::atomic::AtomicUsize::new(0));
+        let (c2, n2) = (cell.clone(), runs.clone());
+        let t = loom::thread::spawn(move || {
+            *c2.get_or_init_blocking(|| { n2.fetch_add(1, std::sync::atomic::Ordering::SeqCst); 9u32 })
+        });
+        let n1 = runs.clone();
+        let a = *cell.get_or_init_blocking(|| { n1.fetch_add(1, std::sync::atomic::Ordering::SeqCst); 7u32 });
+        let b = t.join().unwrap();
+        let n = runs.load(std::sync::atomic::Ordering::SeqCst);
+        if n != 1 || a != b || cell.get().copied() != Some(a) {
+            panic!("LOOM-VIOLATION once_blocking_race: the initialiser closure ran {} times (exactly once expected); values {} {} cell {:?}", n, a, b, cell.get());
+        }
+    });
+}
+
 /// C09, schedule half: two wait() futures of a Barrier of 2 polled on two threads: both complete, exactly one leads.
 fn barrier_race() {
     let mut b = loom::model::Builder::new();
@@ -422,6 +445,7 @@ fn main() {
         ("rw_reader_chain", rw_reader_chain),
         ("rw_writer_vs_last_reader", rw_writer_vs_last_reader),
         ("once_init_race", once_init_race),
+        ("once_blocking_race", once_blocking_race),
         ("barrier_race", barrier_race),
     ];
     for (name, f) in tests {
